@@ -63,12 +63,14 @@ func (propC04) Cases(tier string) int {
 }
 
 func (propC04) Run(ctx *Ctx, index int) {
+	// the shape is drawn from the tape (not derived from the case index, which
+	// would send every case of one shape to the same worker process)
 	var prog *qProgram
-	switch {
-	case index%16 == 7:
+	switch shape := ctx.Prog.Choose(16); {
+	case shape == 7:
 		prog = genStress(ctx.Prog, false) // many goroutines, large parameters
 	default:
-		prog = genC04(ctx.Prog, ctx.Tier == "thorough" && index%4 == 3)
+		prog = genC04(ctx.Prog, ctx.Tier == "thorough" && shape%4 == 3)
 	}
 	qr := runQueueProgram(ctx, prog)
 	ctx.Res.Desc = prog
@@ -117,8 +119,8 @@ func (propC05) Run(ctx *Ctx, index int) {
 		return
 	}
 	var prog *qProgram
-	if index%16 == 7 {
-		prog = genStress(ctx.Prog, index%32 == 7)
+	if shape := ctx.Prog.Choose(32); shape%16 == 7 {
+		prog = genStress(ctx.Prog, shape == 7)
 	} else {
 		prog = genC05(ctx.Prog)
 	}
